@@ -51,7 +51,7 @@ def check_C07(tier):
     calls = sum(1 for _ in open(olog)) if os.path.exists(olog) else 0
     return kit.finish("C07", tier, t0, design, [v],
         extra_cov={"oracle_calls": calls, "iterations_histogram": st.get("iterations_histogram"),
-                   "boundary_searches": {k: st.get(k) for k in ("keygen_caddq_boundary_seeds", "challenge_stream_bytes_used_max", "uniform_boundary_streams")},
+                   "boundary_searches": {k: st.get(k) for k in ("keygen_caddq_boundary_seeds", "keygen_zero_in_transform_domain", "challenge_stream_bytes_used_max", "uniform_boundary_streams")},
                    "rule": "seeded (seed, message): key generation and signing recomputed by TLC from DilithiumEq.tla with SHAKE as an oracle (standard library in a helper process): COMPLETE: KeyGen_spec(seed) gives the public and secret key bytes; Sign_spec(sk, message) is run iteration by iteration (y, w = A y through the NTT-domain matrix, w1, c~ = H(mu || pack(w1)), c, z, the three exact norms, all hints), every iteration must leave through the logged exit and the accepted one must give the signature bytes; 1500+ loop events decide every exit from exact norms (tests met with equality are counted); repeated signing in other call orders; the six samplers on boundary streams"},
         assumptions=["SHAKE-128/256 are trusted (golang.org/x/crypto/sha3 called directly by cmd/hashtool)",
                      "inputs (seeds, messages) are sampled; every sampled key and signature is recomputed completely",
